@@ -21,6 +21,8 @@ SCOPES = {
     "bitint": (("bitint.c", "bitint.h", "bitint-bobs.c"), None),
     "sort": (("instant.h", "wikisort.c", "instant.c"), None),
     "serialise": (("evical.c",), {"evical.c": "send_"}),      # the writer side of evical.c: every function named send_*
+    "parse": (("evical.c",), {"evical.c": "snarf_"}),         # the value readers of evical.c: every function named snarf_*
+    "zone": (("tzob.c", "tzraw.c", "tzob.h"), None),
 }
 
 
